@@ -173,7 +173,7 @@ static void perturbedRun(World* w, const PerturbPattern& pat, Outcome* out, bool
     R.transitions++;
     ev.push_back(EV_PERTURB);
     // structural rules after every perturbation; a wrong queue content ends the run (a dangling entry must not be polled)
-    string q = w->queueProblem();
+    string q = pat.kind == 'A' && !w->m_midProblem.empty() ? w->m_midProblem : w->queueProblem();
     if (!q.empty()) {
       char sb[200];
       snprintf(sb, sizeof(sb), "poll queue %s after perturbation %ld of the run", q == "queue-dangling" ? "holds an entry that is no defined message" :
